@@ -193,7 +193,7 @@ def check_chain(ctx, tu, f):
         gated = False
         for bid, blk in f.blocks.items():
             c = blk.get('cond')
-            if c and f.strip_all_casts(c) == own[0] and edge_dominates(f, bid, 'true', f.pos(rec[0])):
+            if c and f.cond_core(c)[0] == own[0] and edge_dominates(f, bid, 'false' if f.cond_core(c)[1] else 'true', f.pos(rec[0])):
                 gated = True
         ok = eq and order and gated
     ctx.ob('C12.F1', f, 'the mixin chain is: this mixin, and only if it accepts, the rest (conjunction in list order)', ok,
